@@ -39,6 +39,15 @@ def _world(r):
     if r.random() < 0.3:
         names['l2'] = {'alias': 'l'}        # the host hands the same list to the program under a second name
     w = {'names': names, 'host_fns': ['keep']}
+    if r.random() < 0.3:
+        # the host function re(i) calls back into the same parser while an evaluation is in progress: an evaluation of
+        # its own, on the same names mapping or on a fresh one (names of the outer call are then simply not there)
+        w['host_fns'] = ['keep', 're']
+        w['reentry'] = [{'api': 'eval', 'names': 'fresh', 'prog': ['block', [['short', 'l', '+=', ['list', [['num', '5']]]], ['num', '1']]]},
+                        {'api': 'eval', 'names': 'same', 'prog': ['block', [['assign', 'y', ['name', 'l']], ['num', '1']]]},
+                        {'api': 'eval', 'names': 'same', 'prog': ['block', [['short', 'l', '+=', ['list', [['name', 'd']]]], ['num', '1']]]},
+                        {'api': 'eval', 'names': 'fresh', 'prog': ['block', [['assign', 'z', ['list', [['num', '1']]]], ['name', 'z']]]},
+                        {'api': 'eval', 'names': 'same', 'prog': ['block', [['setitem', ['name', 'd'], ['str', 'rk'], ['name', 'l']], ['num', '1']]]}]
     if r.random() < 0.25:
         w['uncopyable'] = True       # the host also supplies a list holding an object copy.deepcopy rejects (a lock)
     return w
@@ -100,6 +109,11 @@ def _gen_op(r, model):
     k = weighted(r, [('assign', 5), ('setitem', 4), ('short', 2.5), ('setitemop', 2), ('mutate', 8), ('host', 4), ('keep', 1)])
     if not tg:
         k = 'assign'
+    if getattr(model, 'reentry', None) and r.random() < 0.12:
+        i = r.randrange(len(model.reentry))
+        call = ['call', 're', [['num', str(i)]], 'plain']
+        prog = r.choice([call, ['assign', r.choice(NEW_VARS), ['list', [['name', 'l'], call]]], ['block', [call, ['assign', r.choice(NEW_VARS), ['name', 'l']]]]])
+        return {'op': 'eval', 'prog': prog, 'form': 'reenter'}
     if k == 'assign' and tg and r.random() < 0.12:
         # a lambda whose parameter is named like a host variable is applied to another container; afterwards, in the
         # same evaluation, that host variable is assigned from / extended
